@@ -1,5 +1,127 @@
-import RubyTi.Model.Lexer
+import RubyTi.Proofs.LexerLemmas
 import RubyTi.Model.Reader
+
+/-!
+# C03 — Tokenizing any text terminates and consumes the whole input
+
+Property theorems only (helper lemmas live in `Proofs/LexerLemmas.lean`).
+`Lexer.advance` models one `Lexer.Advance()` call on the reader's pending runes; its very
+definition is accepted by Lean's termination checker (structural recursion for the eight loops
+of lexer.go, a well-founded measure for the two `return l.Advance()` recursions), which is the
+termination proof for every loop *of the model*; the `lex` correspondence stream ties the model to
+the Go code, where a loop that does not end shows up as `HANG`.
+-/
 namespace RubyTi.C03
-theorem placeholder : True := trivial
+open RubyTi RubyTi.Lexer
+
+/-- Every successful `Advance` strictly shrinks the pending input (unbounded: any state). -/
+theorem advance_consumes (st : LState) (h : (advance st).1 = true) :
+    (advance st).2.pending.length < st.pending.length :=
+  advance_lt st h
+
+/-- `Advance` never invents input: what is pending afterwards was pending before. -/
+theorem advance_no_new_input (st : LState) : ∀ a ∈ (advance st).2.pending, a ∈ st.pending :=
+  advance_subset st
+
+/-- When `Advance` answers false on NUL-free input, nothing is left pending: the stream ended
+because the input is exhausted, not because the lexer gave up. -/
+theorem advance_false_consumed (st : LState) (h0 : 0 ∉ st.pending) (h : (advance st).1 = false) :
+    (advance st).2.pending = [] :=
+  advance_false_pending st h0 h
+
+/-- Each produced token has a kind `parser.Read` handles: no `read error` default, no failing
+`Value().(T)` assertion, and identifiers are never empty (so `ToString()[0]` is in range). -/
+theorem advance_kind_defined (st : LState) (h : (advance st).1 = true) :
+    (readKind (advance st).2).ok = true ∧ identNonEmpty (advance st).2 :=
+  ⟨kind_ok st h, ident_nonempty st h⟩
+
+/-- The driver loop: with fuel above the pending length it reaches end-of-stream (never runs out
+of fuel), produces at most `|pending|` tokens, keeps NUL-freeness, ends with nothing pending, and
+every token is well-kinded. -/
+theorem lexAll_spec (fuel : Nat) (st : LState) (hf : st.pending.length < fuel) (h0 : 0 ∉ st.pending) :
+    (lexAll fuel st).2.1 = true ∧
+    (lexAll fuel st).1.length ≤ st.pending.length ∧
+    (lexAll fuel st).2.2.pending = [] ∧
+    ∀ t ∈ (lexAll fuel st).1, (readKind t).ok = true ∧ identNonEmpty t := by
+  induction fuel generalizing st with
+  | zero => omega
+  | succ n ih =>
+    unfold lexAll
+    cases hadv : advance st with
+    | mk ok st' =>
+      cases ok with
+      | false =>
+        have := advance_false_pending st h0 (by rw [hadv])
+        simp [hadv] at this
+        simp [this]
+      | true =>
+        have hlt := advance_lt st (by rw [hadv])
+        have hsub := advance_subset st
+        have hk := kind_ok st (by rw [hadv])
+        have hi := ident_nonempty st (by rw [hadv])
+        simp [hadv] at hlt hsub hk hi
+        have h0' : 0 ∉ ({ st' with isSpace := false } : LState).pending := fun hm => h0 (hsub 0 hm)
+        have := ih { st' with isSpace := false } (by simp; omega) h0'
+        obtain ⟨a, b, c, d⟩ := this
+        simp at b
+        refine ⟨by simpa using a, by simp; omega, by simpa using c, ?_⟩
+        intro t ht
+        simp at ht
+        rcases ht with rfl | ht
+        · exact ⟨hk, hi⟩
+        · exact d t ht
+
+theorem filter_nz (l : List Rune) : 0 ∉ l.filter (· != 0) := by simp
+
+/-- **Termination**: tokenizing any rune sequence reaches end-of-stream. -/
+theorem tokens_terminate (input : List Rune) : (tokens input).2.1 = true :=
+  (lexAll_spec _ _ (by simp; exact Nat.lt_succ_of_le (List.length_filter_le _ _)) (filter_nz input)).1
+
+/-- **Bound**: the number of tokens is at most the input length. -/
+theorem tokens_bounded (input : List Rune) : (tokens input).1.length ≤ input.length :=
+  Nat.le_trans (lexAll_spec _ _ (by simp; exact Nat.lt_succ_of_le (List.length_filter_le _ _)) (filter_nz input)).2.1
+    (List.length_filter_le _ _)
+
+/-- **Consumption**: at end-of-stream no rune is left pending. -/
+theorem eos_consumed (input : List Rune) : (tokens input).2.2.pending = [] :=
+  (lexAll_spec _ _ (by simp; exact Nat.lt_succ_of_le (List.length_filter_le _ _)) (filter_nz input)).2.2.1
+
+/-- **Kinds**: every token of every input is one `parser.Read` accepts. -/
+theorem kind_defined (input : List Rune) :
+    ∀ t ∈ (tokens input).1, (readKind t).ok = true ∧ identNonEmpty t :=
+  (lexAll_spec _ _ (by simp; exact Nat.lt_succ_of_le (List.length_filter_le _ _)) (filter_nz input)).2.2.2
+
+/-- **Reader refinement** (concrete fields → pending list), see Model/Reader.lean. -/
+theorem reader_read_refines (r : Reader) (h0 : 0 ∉ r.history)
+    (hf : r.ungetFlg = true → r.char = 0 → r.pending = []) :
+    (r.read).1 = (r.pending).headD 0 ∧ (r.read).2.pending = (r.pending).tail :=
+  Reader.read_spec r h0 hf
+
+theorem reader_unread_refines (r : Reader) (hfl : r.ungetFlg = false) :
+    (r.unread).pending = (if r.char != 0 then [r.char] else []) ++ r.pending :=
+  Reader.unread_spec r hfl
+
+/-- `reader.New` + NUL skipping: the reader's initial pending list is the input without NULs,
+which is what `tokens` starts from. -/
+theorem reader_new_pending (input : List Rune) :
+    (Reader.new input).pending = input.filter (· != 0) := by
+  simp [Reader.new, Reader.pending, Reader.nz]
+
+/-- Tables regenerated from /repo on every run agree with the constants the model uses. -/
+theorem tables_match :
+    Gen.advanceCases = [[60, 62], [61], [46], [37], [33, 43, 45, 47], [38], [124],
+                        singleCharToks, quoteChars, [35]] ∧
+    (Gen.advanceNested.lookup 37) = some [percentNext] ∧
+    Gen.lexerLoops.length = 8 ∧
+    (∀ c ∈ Gen.identStop, c = 0 ∨ c ∈ Gen.advanceCases.flatten) ∧
+    (∀ c ∈ singleCharToks ++ [46], Gen.readCases.flatten.contains (Int.ofNat c) = true) ∧
+    Gen.Tok.INT ∈ Gen.readCases.flatten ∧ Gen.Tok.FLOAT ∈ Gen.readCases.flatten ∧
+    Gen.Tok.STRING ∈ Gen.readCases.flatten ∧ Gen.Tok.UNKNOWN ∈ Gen.readCases.flatten ∧
+    Gen.Tok.NIL ∈ Gen.readCases.flatten := by decide
+
+/-- Non-vacuity: the hypotheses of `lexAll_spec` are met by a concrete state (an input with a
+heredoc start and an unterminated quote). -/
+example : let st : LState := { pending := [120, 32, 61, 32, 60, 60, 126, 69, 10, 34, 97] }
+    st.pending.length < 12 ∧ 0 ∉ st.pending := by decide
+
 end RubyTi.C03
